@@ -311,6 +311,11 @@ func batch(res *evid.Result, bi int, root string) {
 			ed := v.Edits[gi][0]
 			if !fn.Exec || !o.Res.Decided("p", pkg, fn.Name) {
 				res.Inconcl(1)
+				if !fn.Exec {
+					res.Count("undecided:function-not-executable", 1)
+				} else {
+					res.Count("undecided:variant-not-executed", 1)
+				}
 				continue
 			}
 			vec, oa, ob, sep := o.Res.Separated("p", pkg, fn.Name)
